@@ -367,3 +367,80 @@ let run_exec_small () =
      done
    with End_of_file -> ());
   Printf.printf "SUMMARY exec_steps=%d diverged=%d exec_growths=%d\n" !steps !bad !grows
+
+(* memory_pool over the address-ordered list (array_pool in every configuration, node_pool where the double-free check is
+   compiled in) against OrderedPoolExec; pos: where the pool object (with the list's sentinels) lies relative to its memory *)
+let run_exec_ordered (node_pool_too : bool) =
+  let st = ref None in
+  let steps = ref 0 and bad = ref 0 and lineno = ref 0 and grows = ref 0 in
+  let diverge msg line = incr bad; if !bad <= 12 then Printf.printf "DIVERGE line %d: %s :: %s\n" !lineno msg (if String.length line > 220 then String.sub line 0 220 else line) in
+  let show_evs evs = String.concat " " (List.map (function
+      | EUp (a, s) -> Printf.sprintf "U+(%d,%d)" (iz a) (iz s) | EUpFail -> "U+fail"
+      | EIns (n, m, s) -> Printf.sprintf "I(%d,%d,%d)" (iz n) (iz m) (iz s) | EResv (m, s) -> Printf.sprintf "R(%d,%d)" (iz m) (iz s)) evs) in
+  let answer_of events = List.fold_left (fun acc e -> match e with EUp (a, _) -> Some a | _ -> acc) None events in
+  let check_caps (s : opool) caps line =
+    match (try Some (List.assoc "cap" caps) with Not_found -> None) with
+    | Some c -> let m = List.length s.op_g.og_l.nodes * iz s.op_g.og_l.nsz in if m <> c then diverge (Printf.sprintf "capacity_left: model %d" m) line
+    | None -> () in
+  (try
+     while true do
+       let line = input_line stdin in
+       incr lineno;
+       match String.split_on_char '|' line with
+       | [head; evs; caps] ->
+         let (lhs, rhs) = match String.index_opt head '=' with
+           | Some i -> (split_ws (String.sub head 0 i), split_ws (String.sub head (i + 1) (String.length head - i - 1)))
+           | None -> (split_ws head, []) in
+         let (events, _, _) = parse_events evs in
+         let caps = kv caps in
+         let finish (s', r, mev) =
+           incr steps;
+           if mev <> events then diverge (Printf.sprintf "model events [%s]" (show_evs mev)) line;
+           (match r, rhs with
+            | ObsOk x, "ok" :: p :: _ -> if iz x <> int_of_string p then diverge (Printf.sprintf "model address %d" (iz x)) line
+            | ObsNull, "null" :: _ | ObsThrow, "throw" :: _ | ObsTrue, "true" :: _ -> ()
+            | ObsOk x, _ -> diverge (Printf.sprintf "model serves the request at %d" (iz x)) line
+            | ObsNull, _ -> diverge "model refuses (null)" line
+            | ObsThrow, _ -> diverge "model throws" line
+            | _, _ -> diverge "unexpected model outcome" line);
+           List.iter (function EUp _ -> incr grows | _ -> ()) mev;
+           st := Some s'; check_caps s' caps line in
+         (match lhs, rhs with
+          | "pool" :: pt :: ns :: bs :: src :: pos :: _, "ok" :: _ when pt = "array" || (pt = "node" && node_pool_too) ->
+            let nsi = max 8 (int_of_string ns) in
+            let k = if src = "grow" then AGrow else AFixed in
+            let (pb0, pe0) = if pos = "high" then (zi (1 lsl 40), zi ((1 lsl 40) + 8)) else (zi 1, zi 9) in
+            let ((s, _), mev) = op_construct k pb0 pe0 (zi nsi) (zi (int_of_string bs)) (answer_of events) in
+            incr steps;
+            if mev <> events then diverge (Printf.sprintf "constructor: model events [%s]" (show_evs mev)) line;
+            st := Some s; check_caps s caps line
+          | ("pool" | "coll") :: _, _ -> st := None
+          | ("ma" | "mfa") :: _, _ -> st := None
+          | (("an" | "tn" | "aa" | "ta") as o) :: args, res :: _ ->
+            (match !st with
+             | None -> ()
+             | Some s ->
+               let (count, size) = (match args with
+                   | [c; sz; _] -> (int_of_string c, int_of_string sz)
+                   | [sz; _] -> (1, int_of_string sz) | _ -> (1, 1)) in
+               let refused_early = events = [] && (res = "throw" || (res = "null" && s.op_g.og_l.nodes <> [] && o = "tn")) in
+               if refused_early then check_caps s caps line
+               else (match o with
+                   | "an" -> finish (let ((a, b), c) = op_alloc_node s (answer_of events) in (a, b, c))
+                   | "tn" -> finish (let ((a, b), c) = op_try_alloc_node s in (a, b, c))
+                   | "aa" -> finish (let ((a, b), c) = op_alloc_array s (zi (count * size)) (answer_of events) in (a, b, c))
+                   | _ -> finish (let ((a, b), c) = op_try_alloc_array s (zi (count * size)) in (a, b, c))))
+          | ("dn" | "da" | "tdn" | "tda") :: _, "true" :: p :: kind :: c :: sz :: _ ->
+            (match !st with
+             | None -> ()
+             | Some s ->
+               let p = zi (int_of_string p) in
+               let bytes = if kind = "node" then iz s.op_g.og_l.nsz else int_of_string c * int_of_string sz in
+               (match op_dealloc s p (zi bytes) with
+                | Some ((a, b), c) -> finish (a, b, c)
+                | None -> diverge "model: the released memory is not out (or not with that size)" line; st := None))
+          | _ -> ())
+       | _ -> ()
+     done
+   with End_of_file -> ());
+  Printf.printf "SUMMARY exec_steps=%d diverged=%d exec_growths=%d\n" !steps !bad !grows
